@@ -117,15 +117,10 @@ func (p *process) Spawn(
 		Args:           args,
 	}
 
+	// options.LinkChild: the link is created by node.spawn before the child starts running
 	pid, err := p.node.spawn(factory, opts)
 	if err != nil {
 		return pid, err
-	}
-
-	if options.LinkChild {
-		// method LinkPID is not allowed to be used in the initialization state,
-		// so we use linking manually.
-		p.node.targetManager.AddLink(p.pid, pid)
 	}
 	return pid, err
 }
@@ -151,15 +146,10 @@ func (p *process) SpawnRegister(
 		Application:    p.application,
 		Args:           args,
 	}
+	// options.LinkChild: the link is created by node.spawn before the child starts running
 	pid, err := p.node.spawn(factory, opts)
 	if err != nil {
 		return pid, err
-	}
-
-	if options.LinkChild {
-		// method LinkPID is not allowed to be used in the initialization state,
-		// so we use linking manually.
-		p.node.targetManager.AddLink(p.pid, pid)
 	}
 	return pid, err
 }
